@@ -24,6 +24,10 @@ wf_all = partial(e2.rule_wellfounded, programs=("main", "nonhermitian"))
 tv_shipped = partial(e9.rule_translation, which=("main", "nonhermitian"))
 diag_solver_real = partial(e7.rule_diagonal_solver, complex_energies=False)  # Hermitian H_0: real energies
 
+# ideal DSL semantics tied to the code: shared by the algorithm-level properties
+CORE = [e1b.rule_projection_pairs, e1b.rule_scope_flags, e2.rule_product_by_order, e2.rule_adjoint_fill, e2.rule_cauchy_wiring,
+        e4.rule_value_preserving, tv_shipped, e9.rule_runtime_support]
+
 PROPS: dict[str, dict] = {}
 
 
@@ -38,8 +42,7 @@ def prop(pid, **kw):
 
 prop(
     "C01", level="proof", trusted_base=TB_E1, selftest=["algorithms", "block_diagonalization"],
-    rules=[main_e1, wf_main, e1b.rule_projection_pairs, e1b.rule_scope_flags, diag_solver_real,
-           e2.rule_product_by_order, e2.rule_adjoint_fill, e4.rule_value_preserving],
+    rules=[main_e1, wf_main, diag_solver_real, *CORE],
     explanation=(
         "Every `with` block of algorithms.py::main is read from the current source and its defining equation is "
         "discharged as a polynomial identity in a free *-algebra (atoms H_0, H'_S, H'_R, W, V; opaque selected-part "
@@ -52,7 +55,7 @@ prop(
 
 prop(
     "C02", level="proof", trusted_base=TB_E1, selftest=["algorithms", "series"],
-    rules=[main_e1, e2.rule_product_by_order, e2.rule_adjoint_fill, e2.rule_cauchy_wiring, e1b.rule_projection_pairs],
+    rules=[main_e1, wf_main, *CORE],
     explanation=(
         "Unitarity (1+U'†)(1+U') = (1+U')(1+U'†) = 1, adj(U) = U†, Hermiticity of U†HU and of every series/product "
         "carrying a hermitian/antihermitian marker are obligations of the E1 certificate of `main`; the Hermitian "
@@ -62,7 +65,7 @@ prop(
 
 prop(
     "C03", level="proof", trusted_base=TB_E1, selftest=["algorithms"],
-    rules=[main_e1, wf_main, e1b.rule_projection_pairs, e1b.rule_scope_flags],
+    rules=[main_e1, wf_main, diag_solver_real, *CORE],
     explanation=(
         "Gauge obligations of the E1 certificate: the anti-Hermitian part of the interpretation of U' is V, S[V] = 0 "
         "(V has only an `offdiagonal` branch), W is Hermitian; together with the well-founded (acyclic same-order) "
@@ -72,7 +75,7 @@ prop(
 
 prop(
     "C04", level="proof", trusted_base=TB_E1, selftest=["algorithms"],
-    rules=[main_e1, e1b.rule_scope_flags, e1b.rule_projection_pairs],
+    rules=[main_e1, wf_main, diag_solver_real, *CORE],
     explanation=(
         "Decided through its structural cause only: H_tilde = S[U†HU] with U unitary and R[U†HU] = 0 (E1 obligations "
         "for H_tilde, B, unitarity), and full diagonalisation keeps exactly the degenerate pairs (to_keep = equal_eigs). "
@@ -82,7 +85,7 @@ prop(
 
 prop(
     "C05", level="other", selftest=["algorithms"],
-    rules=[nh_e1, wf_nh, e1b.rule_scope_flags, e1b.rule_projection_pairs, e7.rule_diagonal_solver, e4.rule_value_preserving],
+    rules=[nh_e1, wf_nh, e7.rule_diagonal_solver, *CORE],
     explanation=(
         "E1 certificate of algorithms.py::nonhermitian (atoms H_0, H'_S, H'_R, U', U_inv'; rules U_inv U = U U_inv = 1, "
         "gauge S[U_inv'] = S[U']): inverse relations, gauge, Sylvester equation, elimination, B and H_tilde are "
@@ -94,7 +97,7 @@ prop(
 prop(
     "C06", level="other", selftest=["linalg", "block_diagonalization"],
     rules=[e8.rule_implicit_wiring, e6.rule_projector, e6.rule_base_state, e6.rule_projector_call_sites,
-           e7.rule_direct_solver, e7.rule_greens_function, e7.rule_diagonal_solver],
+           e7.rule_direct_solver, e7.rule_greens_function, e7.rule_diagonal_solver, e7.rule_kpm_structure, e4.rule_value_preserving],
     explanation=(
         "Only structural necessary conditions are decided (numerical equality of the implicit and explicit paths is "
         "not): the implicit block is Q.H.Q with one and the same oblique projector Q = 1 - R L† on both sides; "
@@ -120,7 +123,7 @@ prop(
 
 prop(
     "C09", level="translation_validation", selftest=["algorithm_parsing"],
-    rules=[e9.rule_translation, e9.rule_translation_corpus, wf_all, e2.rule_adjoint_fill],
+    rules=[e9.rule_translation, e9.rule_translation_corpus, e9.rule_runtime_support, wf_all, e2.rule_adjoint_fill, e8.rule_implicit_wiring],
     explanation=(
         "The repository's own _parse_algorithm is queried (subprocess, tree under analysis) for the generated "
         "series_eval ASTs of `main`, `nonhermitian` and the documented example; each is interpreted abstractly per "
@@ -194,7 +197,7 @@ prop(
 prop(
     "C16", level="other", selftest=["block_diagonalization", "linalg", "second_quantization"],
     rules=[e7.rule_diagonal_solver, e7.rule_shared_eigenvalue_check, e7.rule_direct_solver, e7.rule_greens_function,
-           e7.rule_solve_scalar, e6.rule_projector, e4.rule_value_preserving],
+           e7.rule_solve_scalar, e7.rule_kpm_structure, e6.rule_projector, e4.rule_value_preserving],
     explanation=(
         "Sibling cross-check of the solver implementations against the contract H0_i T - T H0_j = Y: orientation "
         "E_i[row] - E_j[col], positive sign and zero-guard of each of the five branches of the diagonal solver; sign / "
@@ -221,7 +224,7 @@ prop(
 
 prop(
     "C18", level="other", selftest=["series"],
-    rules=[e2.rule_product_by_order, e2.rule_cauchy_wiring, e2.rule_adjoint_fill, main_e1, e4.rule_value_preserving],
+    rules=[e2.rule_product_by_order, e2.rule_cauchy_wiring, e2.rule_adjoint_fill, main_e1, e4.rule_value_preserving, e9.rule_runtime_support],
     explanation=(
         "product_by_order: order box, complementary orders, index wiring (start, middle, *o1) / (middle, end, *o2), "
         "presence test dominating every load, zero-skip, multiplicity table of the Hermitian half-sum, operator "
@@ -232,7 +235,7 @@ prop(
 
 prop(
     "C19", level="other", selftest=["series"],
-    rules=[e2b.rule_check_finite, e3.rule_typestate, wf_all],
+    rules=[e2b.rule_check_finite, e3.rule_typestate, wf_all, e9.rule_runtime_support],
     explanation=(
         "numpy equivalence is by construction (the code indexes a real numpy trial array with the user's expression); "
         "decided clauses: _check_finite rejects, for every member of the declared OneItem union, negative and "
